@@ -9,3 +9,5 @@ const hooksOn = true
 func newCacheCap(n int) *oidc.Cache { return oidc.VerifNewCache(n) }
 
 func cacheSnapshot(c *oidc.Cache) (order, items, elems []string) { return c.VerifSnapshot() }
+
+func stopMetadataCleanup(t *oidc.TraefikOidc) bool { t.VerifStopMetadataCleanup(); return true }
